@@ -466,6 +466,10 @@ func streamMergeScenario(r *R) {
 				s.Err = context.Canceled
 			case 5:
 				s.Err = context.DeadlineExceeded
+			case 3:
+				// an input's own failure that merely *wraps* stream.End is still a failure
+				s.Err = fmt.Errorf("input %d broke off: %w", i, stream.End)
+				r.Probe("stream-merge-input-error-wraps-End")
 			default:
 				s.Err = NewErr(fmt.Sprintf("E%d", i))
 			}
